@@ -441,60 +441,70 @@ func CrossCheck(tr *TargetResult, results []*OblResult, opts *SolveOpts, budget 
 	return
 }
 
-// phase0 runs one incremental solver process over the pending obligations and returns the
-// indices it did not settle. Only definite answers count: unsat for a proof obligation, sat
-// for a cover; everything else is left to the per-obligation phases.
+// phase0 runs incremental solver processes over the pending obligations (in parallel
+// chunks, each under a short global limit) and returns the indices it did not settle. Only
+// definite answers count: unsat for a proof obligation, sat for a cover; everything else
+// is left to the per-obligation phases.
 func phase0(tr *TargetResult, opts *SolveOpts, results []*OblResult, pending []int, tag string) []int {
-	const chunk = 400
+	const chunk = 48
+	var mu sync.Mutex
 	var rest []int
+	var wg sync.WaitGroup
 	for start := 0; start < len(pending); start += chunk {
 		end := start + chunk
 		if end > len(pending) {
 			end = len(pending)
 		}
 		part := pending[start:end]
-		var q strings.Builder
-		q.WriteString("(set-option :timeout 700)\n")
-		q.WriteString(tr.Script)
-		for _, i := range part {
-			fmt.Fprintf(&q, "(push 1)\n(assert %s)\n(check-sat)\n(pop 1)\n", tr.Obls[i].Cond)
-		}
-		file := filepath.Join(opts.TmpDir, fmt.Sprintf("i_%s_%d.smt2", tag, start))
-		os.WriteFile(file, []byte(q.String()), 0o644)
-		opts.acquire()
-		t0 := time.Now()
-		budget := 20 + len(part)/4
-		cctx, cancel := context.WithTimeout(context.Background(), time.Duration(budget)*time.Second)
-		cmd := exec.CommandContext(cctx, "z3-new", file)
-		var out bytes.Buffer
-		cmd.Stdout = &out
-		cmd.Stderr = &out
-		cmd.Run()
-		cancel()
-		opts.release()
-		os.Remove(file)
-		dur := time.Since(t0).Seconds()
-		var answers []string
-		for _, ln := range strings.Split(out.String(), "\n") {
-			ln = strings.TrimSpace(ln)
-			if ln == "unsat" || ln == "sat" || ln == "unknown" || ln == "timeout" {
-				answers = append(answers, ln)
-			} else if strings.HasPrefix(ln, "(error") {
-				// an error line shifts nothing: z3 still prints one answer per check-sat
-				continue
+		start := start
+		wg.Add(1)
+		go func() {
+			defer wg.Done()
+			var q strings.Builder
+			q.WriteString("(set-option :timeout 400)\n")
+			q.WriteString(tr.Script)
+			for _, i := range part {
+				fmt.Fprintf(&q, "(push 1)\n(assert %s)\n(check-sat)\n(pop 1)\n", tr.Obls[i].Cond)
 			}
-		}
-		for k, i := range part {
-			if k < len(answers) {
-				a := answers[k]
-				o := tr.Obls[i]
-				if (a == "unsat" && !o.Cover) || (a == "sat" && o.Cover) {
-					results[i].Status, results[i].Solver, results[i].Time, results[i].Raw = a, "z3-new", dur/float64(len(part)), "incremental"
-					continue
+			file := filepath.Join(opts.TmpDir, fmt.Sprintf("i_%s_%d.smt2", tag, start))
+			os.WriteFile(file, []byte(q.String()), 0o644)
+			opts.acquire()
+			t0 := time.Now()
+			cctx, cancel := context.WithTimeout(context.Background(), 12*time.Second)
+			cmd := exec.CommandContext(cctx, "z3-new", file)
+			var out bytes.Buffer
+			cmd.Stdout = &out
+			cmd.Stderr = &out
+			cmd.Run()
+			cancel()
+			opts.release()
+			os.Remove(file)
+			dur := time.Since(t0).Seconds()
+			var answers []string
+			for _, ln := range strings.Split(out.String(), "\n") {
+				ln = strings.TrimSpace(ln)
+				if ln == "unsat" || ln == "sat" || ln == "unknown" || ln == "timeout" {
+					answers = append(answers, ln)
 				}
 			}
-			rest = append(rest, i)
-		}
+			var mine []int
+			for k, i := range part {
+				if k < len(answers) {
+					a := answers[k]
+					o := tr.Obls[i]
+					if (a == "unsat" && !o.Cover) || (a == "sat" && o.Cover) {
+						results[i].Status, results[i].Solver, results[i].Time, results[i].Raw = a, "z3-new", dur/float64(len(part)), "incremental"
+						continue
+					}
+				}
+				mine = append(mine, i)
+			}
+			mu.Lock()
+			rest = append(rest, mine...)
+			mu.Unlock()
+		}()
 	}
+	wg.Wait()
+	sort.Ints(rest)
 	return rest
 }
